@@ -30,6 +30,7 @@ OUT_OF_SCOPE = {
     "C19_s": "needs serve_forever() to be called a second time on a TCP server that is already serving on a fixed port (the call fails with EADDRINUSE): starting a running server again is not among the orders of connect / command / disconnect / stop the statement quantifies over; the check restarts only after a stop and uses ephemeral ports",
     "C16_u": "written against C16 but is about how a command line is split into tokens (shlex instead of split): replies and effects of commands with quotes differ from the method call -> caught by the C17 check (1100 programs) and the C18 check",
     "C18_u": "written against C18 but lives in the server's connection callback (connections registered by peer address, which is '' for every Unix client): caught by the C19 check, the C18 harness drives sessions directly",
+    "C01_v": "needs a user function that returns a hand-written collections.abc.Coroutine object without __qualname__ instead of a coroutine: workers here return real coroutines (or, as a fault, no coroutine at all); not generated",
     "C04_j": "needs pool_size to be reassigned while a spawner waits for room - the territory of the open finding D4 (on the unchanged tree such a waiter also stays blocked after the assignment), where completeness is not demanded",
 }
 
@@ -46,7 +47,7 @@ def one(name: str, all_checks: bool) -> dict:
         res = {"error": (r.stdout + r.stderr)[-500:]}
     meta = {
         "id": name, "property": am["property"], "summary": am.get("summary"), "needs": am.get("needs"), "files": am.get("files"),
-        "origin": "written by an independent sub-agent that saw only the property text and a scratch worktree (round %d)" % {"a": 1, "b": 1, "c": 2, "d": 2, "e": 3, "f": 4, "g": 5, "h": 6, "i": 6, "j": 7, "k": 8, "l": 9, "m": 10, "n": 11, "o": 12, "p": 13, "q": 14, "r": 15, "s": 16, "t": 17, "u": 18}.get(name[-1], 0),
+        "origin": "written by an independent sub-agent that saw only the property text and a scratch worktree (round %d)" % {"a": 1, "b": 1, "c": 2, "d": 2, "e": 3, "f": 4, "g": 5, "h": 6, "i": 6, "j": 7, "k": 8, "l": 9, "m": 10, "n": 11, "o": 12, "p": 13, "q": 14, "r": 15, "s": 16, "t": 17, "u": 18, "v": 19}.get(name[-1], 0),
         "verified": {"how": "./selftest seeded/%s %s  (scratch copy of /repo + patch.diff; repository test suite; demo.py against the changed and the unchanged source; checks' quick tier with VERIF_REPO=<copy>)" % (name, " ".join(checks)),
                      "patch_applies": res.get("patch_applies"), "suite": res.get("suite"),
                      "demo_exit_with_change": res.get("demo_with"), "demo_exit_without_change": res.get("demo_without")},
